@@ -21,7 +21,7 @@ def load_known():
 
 def load_baseline():
     try:
-        return json.load(open(BASELINE))
+        return json.load(open(BASELINE)).get("obligations", {})
     except Exception:
         return {}
 
